@@ -100,6 +100,23 @@ def main():
                 fr["functions"][name] = {"first": a, "last": b, "statements": len(fs), "executed": len(fs) - len(miss), "missing": miss}
                 md.append("| %s | %d | %d | %s |" % (name, len(fs), len(fs) - len(miss), " ".join(map(str, miss)) or "-"))
             report["files"][rel] = fr
+        # branches: combine everything once more and let coverage.py list the arcs that were never taken
+        allf = os.path.join(scratch, "all.coverage")
+        subprocess.run([PY, "-m", "coverage", "combine", "-q", "--keep", "--data-file", allf] +
+                       [os.path.join(scratch, c, ".coverage") for c in props if os.path.exists(os.path.join(scratch, c, ".coverage"))],
+                       cwd=scratch, stdout=subprocess.PIPE, stderr=subprocess.STDOUT)
+        jf = os.path.join(scratch, "all.json")
+        subprocess.run([PY, "-m", "coverage", "json", "-q", "--data-file", allf, "-o", jf], cwd=REPO,
+                       stdout=subprocess.PIPE, stderr=subprocess.STDOUT)
+        if os.path.exists(jf):
+            jd = json.load(open(jf))
+            md.append("\n## Branches never taken (from -> to line; negative = function exit)\n")
+            for fpath, fd in sorted(jd.get("files", {}).items()):
+                mb = fd.get("missing_branches") or []
+                rel = os.path.relpath(os.path.join(REPO, fpath), REPO) if not os.path.isabs(fpath) else os.path.relpath(fpath, REPO)
+                report["files"].setdefault(rel, {})["missing_branches"] = mb
+                if mb:
+                    md.append("* %s: %s" % (rel, " ".join("%d->%d" % (a, b) for a, b in mb)))
         os.makedirs(os.path.join(VERIF, "coverage"), exist_ok=True)
         json.dump(report, open(os.path.join(VERIF, "coverage", "impl_coverage.json"), "w"), indent=1)
         open(os.path.join(VERIF, "coverage", "SUMMARY.md"), "w").write("\n".join(md) + "\n")
